@@ -7,10 +7,11 @@ set -u
 SID=$1
 PROP=${2:-$(python3 -c "import json,sys;print(json.load(open('/verif/seeded/$SID/meta.json'))['property'])")}
 TIER=${3:-quick}
+BASE=$(python3 -c "import json;print(json.load(open('/verif/seeded/$SID/meta.json')).get('check_base','HEAD'))")
 WT=/tmp/seedwt/$SID
 git -C /repo worktree remove --force $WT 2>/dev/null
 rm -rf $WT; mkdir -p /tmp/seedwt
-git -C /repo worktree add --detach $WT HEAD >/dev/null 2>&1 || { echo "cannot create worktree"; exit 2; }
+git -C /repo worktree add --detach $WT $BASE >/dev/null 2>&1 || { echo "cannot create worktree"; exit 2; }
 git -C $WT apply /verif/seeded/$SID/patch.diff || { echo "patch does not apply"; git -C /repo worktree remove --force $WT; exit 2; }
 sh /verif/tools/try_seeded.sh $WT $PROP $TIER
 rc=$(grep -o 'exit=[0-9]*' /tmp/seedrun/$SID-$PROP/log.txt | tail -1)
